@@ -2,7 +2,7 @@
     Spec/AddrSpec.v: when a checker answers [true] for an accepted address, the address is a mailbox in
     the sense of the specification (with the reference inet_pton as the oracle).  Not a property theorem;
     it shrinks what has to be trusted about the failing-input search. *)
-From Qv Require Import Common.Bytes Model.InetPton Spec.AddrSpec Proofs.AddrTables Proofs.DomainProofs Proofs.LocalProofs.
+From Qv Require Import Common.Bytes Model.InetPton Spec.AddrSpec Proofs.AddrTables Proofs.CStrLemmas Proofs.DomainProofs Proofs.LocalProofs.
 
 Local Arguments N.eqb : simpl never.
 
@@ -57,4 +57,211 @@ Proof.
     { apply existsb_exists. exists cRBR. split; [exact X|apply N.eqb_refl]. }
     congruence. }
   now apply literal_body_b_sound.
+Qed.
+
+(* ------------------------------------------------------------------ the checker of the addrsyntax observation *)
+
+Lemma behind_none c s : behind c s = None -> before c s = s /\ ~ In c s.
+Proof.
+  induction s as [|x s IH]; intros H; [split; [reflexivity|intros []]|].
+  cbn [behind before] in *. destruct (N.eqb_spec x c) as [->|Hx]; [discriminate|].
+  destruct (IH H) as [E Hn]. split; [now rewrite E|]. intros [X|X]; [congruence|contradiction].
+Qed.
+
+Lemma existsb_behind c s : existsb (N.eqb c) s = true -> exists x, behind c s = Some x.
+Proof.
+  induction s as [|y s IH]; [discriminate|]. cbn [existsb behind]. intros H.
+  destruct (N.eqb_spec y c) as [->|Hy]; [eauto|].
+  apply orb_true_iff in H as [H|H]; [apply N.eqb_eq in H; congruence|auto].
+Qed.
+
+Lemma route_b_sound fuel : forall r, route_b r fuel = true -> route r.
+Proof.
+  induction fuel as [|fuel IH]; intros r H; [discriminate|].
+  cbn [route_b] in H. destruct r as [|c r']; [discriminate|].
+  apply andb_true_iff in H as [Hc H]. apply N.eqb_eq in Hc. subst c. cbn zeta in H.
+  destruct (behind cCOMMA r') as [rest|] eqn:Eb.
+  - destruct (before_behind cCOMMA r' rest Eb) as [E _]. apply andb_true_iff in H as [Hd Hr].
+    rewrite E. apply rt_more; [now apply fqdn_b_iff|now apply IH].
+  - destruct (behind_none cCOMMA r' Eb) as [E _]. rewrite E in H. apply andb_true_iff in H as [Hl Hd].
+    apply N.eqb_eq in Hl.
+    assert (Hne : r' <> []) by (intros ->; discriminate).
+    rewrite (app_removelast_last 0%N Hne), Hl. apply rt_last. now apply fqdn_b_iff.
+Qed.
+
+Lemma mailbox_mono pton4 pton6 (L L' : bytes -> Prop) rc s :
+  (forall l, L l -> L' l) -> mailbox pton4 pton6 L rc s -> mailbox pton4 pton6 L' rc s.
+Proof. intros HL (lp & dom & E & H1 & H2 & H3 & H4). exists lp, dom. auto 10. Qed.
+
+(** [spec_as_core] = Some (k, follows): the line is route ++ a ++ ">" ++ rest as [addrsyntax_post] says,
+    k is the offset behind the ">", follows = (rest <> []) *)
+Theorem spec_as_core_sound strict flags s rc ad k follows : rc <> 0%Z ->
+  spec_as_core strict flags s rc ad = Some (k, follows) ->
+  addrsyntax_post pton4_ref pton6_ref s flags rc (Some ad) (if follows then Some k else None).
+Proof.
+  intros Hrc H. right. unfold spec_as_core in H. cbn zeta in H.
+  set (has_route := Z.eqb flags 1 && N.eqb (hd 0%N s) cAT) in *.
+  set (rt := if has_route then before cCOLON s ++ [cCOLON] else []) in *.
+  destruct (behind cGT (skipn (length rt) s)) as [rest|] eqn:Eb; [|discriminate].
+  destruct (before_behind cGT _ rest Eb) as [Es1 Hna].
+  set (a := before cGT (skipn (length rt) s)) in *.
+  match type of H with (if ?c then _ else _) = _ => destruct c eqn:Ec; [|discriminate] end.
+  inversion H; subst k follows. clear H.
+  apply andb_true_iff in Ec as [Ec Hcase]. apply andb_true_iff in Ec as [Hroute Had]. apply bytes_eqb_eq in Had.
+  assert (Hs : s = rt ++ a ++ cGT :: rest /\ (rt = [] \/ (flags = 1%Z /\ route rt /\ length rt <= 256))).
+  { unfold rt in *. destruct has_route eqn:Ehr.
+    - cbn [negb orb] in Hroute. apply andb_true_iff in Hroute as [Hr Hex]. apply andb_true_iff in Hr as [Hr Hl].
+      apply Nat.leb_le in Hl. apply route_b_sound in Hr.
+      destruct (existsb_behind cCOLON s Hex) as (x & Ex). destruct (before_behind cCOLON s x Ex) as [E _].
+      assert (E2 : s = (before cCOLON s ++ [cCOLON]) ++ x) by (rewrite <- app_assoc; exact E).
+      assert (E3 : skipn (length (before cCOLON s ++ [cCOLON])) s = x) by (rewrite E2 at 2; apply CStrLemmas.skipn_app_exact).
+      rewrite E3 in Es1. split; [rewrite E2 at 1; now rewrite Es1|].
+      right. unfold has_route in Ehr. apply andb_true_iff in Ehr as [Hf _]. apply Z.eqb_eq in Hf. auto.
+    - cbn [length skipn] in Es1. split; [exact Es1|now left]. }
+  destruct Hs as [Hs Hrt].
+  exists rt, a, rest. split; [exact Hs|]. split; [exact Hna|]. split; [exact Hrt|]. split; [now rewrite Had|].
+  split; [destruct rest; reflexivity|].
+  destruct (Z.eqb_spec rc 1) as [->|H1].
+  { left. split; [reflexivity|]. apply orb_true_iff in Hcase as [Hc|Hc]; apply andb_true_iff in Hc as [Hf Hc]; apply Z.eqb_eq in Hf.
+    - left. split; [exact Hf|]. apply Nat.eqb_eq in Hc. destruct a; [reflexivity|discriminate].
+    - right. split; [exact Hf|]. now apply bytes_eqb_eq. }
+  destruct (Z.eqb_spec rc 3) as [->|H3].
+  { right. left. split; [reflexivity|]. apply mailbox_b_sound in Hcase. eapply mailbox_mono; [|exact Hcase]. intros l [Hl _]. exact Hl. }
+  destruct (Z.eqb_spec rc 4) as [->|H4]; [|discriminate].
+  right. right. split; [reflexivity|]. apply mailbox_b_sound in Hcase. eapply mailbox_mono; [|exact Hcase]. intros l [Hl _]. exact Hl.
+Qed.
+
+Lemma only_nuls_written_sound old new : only_nuls_written old new = true -> nulw old new.
+Proof.
+  revert new. induction old as [|x o IH]; intros [|y n] H; try discriminate; [constructor|].
+  cbn [only_nuls_written] in H. apply andb_true_iff in H as [H1 H2]. constructor; [|now apply IH].
+  apply orb_true_iff in H1 as [E|E]; apply N.eqb_eq in E; auto.
+Qed.
+
+(** the checker of the addrsyntax observation (rc, addr, more, buffer) accepts only observations that satisfy
+    the specification: only NULs written, and for rc <> 0 the postcondition of C14_addrsyntax *)
+Theorem spec_as_sound strict flags inb rc addr more mem :
+  spec_as strict flags inb rc addr more mem = true ->
+  nulw (inb ++ [0%N]) mem
+  /\ addrsyntax_post pton4_ref pton6_ref (cstr_of inb) flags rc addr more.
+Proof.
+  unfold spec_as. intros H. apply andb_true_iff in H as [Hw H]. split; [now apply only_nuls_written_sound|].
+  destruct (Z.eqb_spec rc 0) as [->|Hrc]; [now left|].
+  destruct addr as [ad|]; [|discriminate].
+  destruct (spec_as_core strict flags (cstr_of inb) rc ad) as [[k follows]|] eqn:Ec; [|discriminate].
+  pose proof (spec_as_core_sound strict flags _ rc ad k follows Hrc Ec) as Hp.
+  destruct more as [m|].
+  - apply andb_true_iff in H as [Hf Hm]. apply Nat.eqb_eq in Hm. subst m. rewrite Hf in Hp. exact Hp.
+  - apply negb_true_iff in H. rewrite H in Hp. exact Hp.
+Qed.
+
+(* ------------------------------------------------------------------ the other observation checkers *)
+
+Theorem spec_pa_sound strict addr rc chk av : spec_pa strict addr rc chk av = true ->
+  (0 <= rc <= 4)%Z
+  /\ (rc = 3%Z -> mailbox pton4_ref pton6_ref lweak 3 (cstr_of addr))
+  /\ (rc = 4%Z -> mailbox pton4_ref pton6_ref lweak 4 (cstr_of addr))
+  /\ (rc = 1%Z -> fqdn (cstr_of addr)).
+Proof.
+  unfold spec_pa. cbn zeta. intros H. apply andb_true_iff in H as [_ H].
+  destruct (Z.eqb_spec rc 0) as [->|H0]; [repeat split; try lia; discriminate|].
+  destruct (Z.eqb_spec rc 1) as [->|H1]; [repeat split; try lia; try discriminate; intros _; now apply fqdn_b_iff|].
+  destruct (Z.eqb_spec rc 2) as [->|H2]; [repeat split; try lia; discriminate|].
+  destruct (Z.eqb_spec rc 3) as [->|H3].
+  { repeat split; try lia; try discriminate. intros _. apply mailbox_b_sound in H. eapply mailbox_mono; [|exact H]. intros l [Hl _]; exact Hl. }
+  destruct (Z.eqb_spec rc 4) as [->|H4]; [|discriminate].
+  repeat split; try lia; try discriminate. intros _. apply mailbox_b_sound in H. eapply mailbox_mono; [|exact H]. intros l [Hl _]; exact Hl.
+Qed.
+
+Theorem spec_xt_sound strict str n : spec_xt strict str n = true ->
+  n = (-1)%Z \/
+  ((0 <= n)%Z /\ exists d, xdecode (firstn (Z.to_nat n) str) = Some d
+     /\ xtext_value pton4_ref pton6_ref d
+     /\ (nth (Z.to_nat n) (str ++ [0%N]) 1%N = 0%N \/ nth (Z.to_nat n) (str ++ [0%N]) 1%N = SP)).
+Proof.
+  unfold spec_xt. destruct (Z.ltb_spec n 0) as [Hneg|Hpos]; [intros H; apply Z.eqb_eq in H; now left|].
+  cbn zeta. intros H. right. split; [exact Hpos|].
+  apply andb_true_iff in H as [H Hd]. apply andb_true_iff in H as [_ He].
+  destruct (xdecode (firstn (Z.to_nat n) str)) as [d|]; [|discriminate]. exists d. split; [reflexivity|]. split.
+  - unfold xtext_value.
+    apply orb_true_iff in Hd as [Hd|H4]; [apply orb_true_iff in Hd as [Hd|H3]; [apply orb_true_iff in Hd as [H0|Hn]|]|].
+    + left. apply Nat.eqb_eq in H0. destruct d; [reflexivity|discriminate].
+    + right. left. now apply bytes_eqb_eq.
+    + right. right. left. apply mailbox_b_sound in H3. eapply mailbox_mono; [|exact H3]. intros l [Hl _]; exact Hl.
+    + right. right. right. apply mailbox_b_sound in H4. eapply mailbox_mono; [|exact H4]. intros l [Hl _]; exact Hl.
+  - apply orb_true_iff in He as [E|E]; apply N.eqb_eq in E; auto.
+Qed.
+
+(* ------------------------------------------------------------------ completeness of the recognisers *)
+
+Lemma lweak_b_quoted q : qcontent q -> forall r, lweak_b true (q ++ cQUOTE :: r) = lweak_b false r.
+Proof.
+  induction 1 as [|c q Hc _ IH|e q He _ IH]; intros r.
+  - cbn [app lweak_b negb]. now rewrite N.eqb_refl.
+  - destruct (qtext_not_special c Hc) as [H1 H2]. apply N.eqb_neq in H1, H2.
+    cbn [app lweak_b negb]. rewrite H1, H2, Hc. cbn [andb]. apply IH.
+  - cbn [app lweak_b negb]. change (N.eqb cBSL cQUOTE) with false. rewrite N.eqb_refl.
+    assert (Ee : N.eqb e cQUOTE || N.eqb e cBSL = true) by (destruct He as [-> | ->]; reflexivity).
+    rewrite Ee. cbn [andb]. apply IH.
+Qed.
+
+(** [lweak_b] decides [lweak] *)
+Theorem lweak_b_iff l : lweak_b false l = true <-> lweak l.
+Proof.
+  split; [apply lweak_b_ok|].
+  induction 1 as [|c r Hc _ IH|q r Hq _ IH]; [reflexivity| |].
+  - cbn [lweak_b negb].
+    assert (Hnq : N.eqb c cQUOTE = false).
+    { apply N.eqb_neq. destruct Hc as [Hc| ->]; [apply atext_not_special in Hc; tauto|discriminate]. }
+    rewrite Hnq. assert (Hu : atext c || N.eqb c DOT = true) by (destruct Hc as [Hc| ->]; [now rewrite Hc|reflexivity]).
+    now rewrite Hu, IH.
+  - cbn [lweak_b negb]. rewrite N.eqb_refl. now rewrite lweak_b_quoted.
+Qed.
+
+Lemma before_behind_app c lp dom : ~ In c lp -> before c (lp ++ c :: dom) = lp /\ behind c (lp ++ c :: dom) = Some dom.
+Proof.
+  induction lp as [|x lp IH]; intros Hn; cbn [app before behind].
+  - rewrite N.eqb_refl. auto.
+  - apply not_in_cons in Hn as [Hx Hn]. destruct (N.eqb_spec x c); [congruence|].
+    destruct (IH Hn) as [E1 E2]. now rewrite E1, E2.
+Qed.
+
+Lemma literal_body_b_complete lit : literal_body pton4_ref pton6_ref lit -> literal_body_b lit = true.
+Proof.
+  unfold literal_body, literal_body_b. intros [[H4 Hl]|(l6 & -> & H6 & Hl)].
+  - destruct (starts_with TAG6 lit) eqn:E.
+    + apply starts_with_split in E. rewrite E in H4. cbn in H4. discriminate.
+    + rewrite H4. apply Nat.ltb_lt in Hl. now rewrite Hl.
+  - assert (E : starts_with TAG6 (TAG6 ++ l6) = true).
+    { unfold starts_with. rewrite firstn_app_exact. apply bytes_eqb_refl. }
+    rewrite E. rewrite skipn_app_exact, H6. rewrite app_length.
+    replace (length TAG6 + length l6 - length TAG6) with (length l6) by lia.
+    apply Nat.ltb_lt in Hl. now rewrite Hl.
+Qed.
+
+(** [mailbox_b] decides [mailbox] (with the reference oracle; local part [lweak], and Dot-string/Quoted-string
+    when [strict]) *)
+Theorem mailbox_b_iff strict rc s :
+  mailbox_b strict rc s = true <->
+  mailbox pton4_ref pton6_ref (fun lp => lweak lp /\ (strict = true -> local_rfc lp)) rc s.
+Proof.
+  split; [apply mailbox_b_sound|].
+  intros (lp & dom & -> & Hne & Hat & [Hw Hs] & Hd).
+  unfold mailbox_b. destruct (before_behind_app cAT lp dom Hat) as [E1 E2]. rewrite E1, E2.
+  assert (Hl : negb (Nat.eqb (length lp) 0) = true) by (destruct lp; [congruence|reflexivity]).
+  rewrite Hl, (proj2 (lweak_b_iff lp) Hw). cbn [andb].
+  assert (Hst : negb strict || local_rfc_b lp = true).
+  { destruct strict; [|reflexivity]. cbn [negb orb]. apply local_rfc_b_iff. now apply Hs. }
+  rewrite Hst. cbn [andb].
+  destruct Hd as [[-> Hf]|[-> (lit & -> & Hnr & Hlit)]].
+  - cbn [Nat.eqb]. now apply fqdn_b_iff.
+  - cbn [Nat.eqb]. rewrite N.eqb_refl. cbn [andb].
+    assert (Hlast : last (lit ++ [cRBR]) 0%N = cRBR) by (rewrite last_app_cons; reflexivity).
+    rewrite Hlast, N.eqb_refl. cbn [andb].
+    assert (Hlen : negb (Nat.eqb (length (lit ++ [cRBR])) 0) = true) by (rewrite app_length; cbn [length]; destruct (length lit); reflexivity).
+    rewrite Hlen, removelast_last. cbn [andb].
+    assert (Hex : existsb (N.eqb cRBR) lit = false).
+    { destruct (existsb (N.eqb cRBR) lit) eqn:E; [|reflexivity]. apply existsb_exists in E as (x & Hx & Ex).
+      apply N.eqb_eq in Ex. subst x. contradiction. }
+    rewrite Hex. cbn [negb andb]. now apply literal_body_b_complete.
 Qed.
